@@ -10,4 +10,5 @@ INVARIANT TypeOK
 INVARIANT Agreement
 INVARIANT ExactlyOneSetSucceeds
 PROPERTY WriteOnce
+PROPERTY Linearizable
 CHECK_DEADLOCK TRUE
